@@ -333,6 +333,22 @@ def run(check, repo, tier):
     for rid, floor in (("R2", 100), ("R3", 20), ("R5", 4)):
         check.floor(not (counts.get(rid, 0) < floor), f"C20.{rid}: only {counts.get(rid, 0)} obligations decided (floor {floor})")
     n4 = extrusion_rule(check, cr.program) + registration(check, cr.program)
+    # the running total lives in the remembered parameters: only motion / offset commands may touch them (rule R7 of C07)
+    check.rule("R7", "only commands that deliver a motion / offset statement modify the remembered parameters (the extrusion total restarts only with an E reset)")
+    from . import c07
+    cr7 = CommandRun(repo, tier=tier, exclude=("write",), cm_body=("pass",), with_invalid=False)
+    n7 = 0
+    for r in cr7.run(c07.analyse):
+        for it in r["items"]:
+            if it[1] != "R7":
+                continue
+            if it[0] == "ok":
+                check.ok("R7", it[2])
+                n7 += 1
+            elif it[0] == "viol":
+                check.violation("R7", it[2], it[3], it[4])
+                n7 += 1
+    check.floor(n7 >= 100, f"C20.R7: only {n7} obligations decided (floor 100)")
     routing_rule(check, cr.program)
     check.analysed = dict(cr.stats, extrusion_paths=n4)
     check.coverage["exhaustive"] = True
